@@ -154,7 +154,7 @@ CHECKS["C19"] = dict(
          "every boundary every row of the window equals Render of the recorded lines / top / left, the cursor line is inside the "
          "window and the terminal cursor is on the cell of the cursor character. Completeness by the diameter postcondition.",
     design="8/C19", technique="TLA+ terminal model; TLC trace validation of the recorded tty stream against the recorded editor state (M1)",
-    note="Only the active, unsplit, left-to-right window; status row and attributes are not compared; terminal widths are "
+    note="Only the active window (also when the screen is split in two by ^Ws: the window that was left is not constrained), left-to-right base direction; status row and attributes are not compared; terminal widths are "
          "assumed to agree with the editor's tables. The lexer (ttylex.py) is trusted; unknown sequences fail the trace.")
 
 CHECKS["C05"] = dict(
